@@ -1,7 +1,7 @@
 (* Worked instance used beside the C07 theorems: 3 listening hosts + 1 write-only manager,
    4 clients (a on host 0; b, c on host 1; d on host 2), a shared room, a callback to a remote client.
    Everything here is checked by computation or by instantiating the theorems at this reachable state. *)
-From VT Require Import Manager.ManagerProofs Manager.RoomsProofs Manager.AckProofs Check.C03Check Check.C06Check.
+From VT Require Import Manager.ManagerProofs Cluster.RoomsFacts Manager.AckProofs Check.C06Check.
 From VT Require Import Cluster.PubSub Cluster.ClusterLemmas Cluster.ClusterProofs Cluster.CallbackProofs Check.C07Check.
 From Coq Require Import Lia Permutation.
 Open Scope N_scope.
@@ -54,8 +54,8 @@ Example x_immediate_applies :
 Proof. apply (immediate_refines x_place x_wos x_ops x_wf). Qed.
 
 (* the state after the setup: related to the single server's *)
-Definition x_c : cluster := fst (run_imm x_c0 x_setup).
-Definition x_s : single := fst (run_single single_init x_setup).
+Definition x_c : cluster := Eval vm_compute in fst (run_imm x_c0 x_setup).
+Definition x_s : single := Eval vm_compute in fst (run_single single_init x_setup).
 Lemma x_wf_setup : Forall (wf_op x_place x_c0) x_setup.
 Proof.
   pose proof x_wf as H. unfold x_ops in H. apply Forall_app in H. apply H.
@@ -63,7 +63,7 @@ Qed.
 Lemma x_R : R x_place x_c x_s.
 Proof.
   destruct (run_imm_refines x_place x_setup x_c0 x_c0 single_init (R_init x_place x_wos) (same_wos_refl _) x_wf_setup)
-    as (_ & H & _). exact H.
+    as (_ & H & _). vm_cast_no_check H.
 Qed.
 
 (* ---- C07_no_double_on_origin at work: host 0 emits to room r, of which its own client a is a member ---- *)
@@ -92,8 +92,10 @@ Proof.
 Qed.
 
 (* ---- C07_callback_once_on_issuer at work: callback for client c = S2 (host 1) issued on host 0 ---- *)
-Definition x_si : hst := match nth_error (c_hosts x_c) 0 with Some h => h_st h | None => hst_init end.
-Definition x_so : hst := match nth_error (c_hosts x_c) 1 with Some h => h_st h | None => hst_init end.
+Definition x_h0 : host := Eval vm_compute in match nth_error (c_hosts x_c) 0 with Some h => h | None => host_init true end.
+Definition x_h1 : host := Eval vm_compute in match nth_error (c_hosts x_c) 1 with Some h => h | None => host_init true end.
+Definition x_si : hst := Eval vm_compute in h_st x_h0.
+Definition x_so : hst := Eval vm_compute in h_st x_h1.
 Example x_callback_premises :
   hst_ok x_si /\ hst_ok x_so /\
   mem (h_mgr x_so) (e "/") PNone (e "S2") = Some (e "c") /\
@@ -101,11 +103,10 @@ Example x_callback_premises :
   (forall s' e', mem (h_mgr x_so) (e "/") (PStr (e "S2")) s' = Some e' -> s' = e "S2") /\
   (forall s', mem (h_mgr x_si) (e "/") (PStr (e "S2")) s' = None).
 Proof.
-  assert (H0 : exists h, nth_error (c_hosts x_c) 0 = Some h /\ h_st h = x_si) by (eexists; split; reflexivity).
-  assert (H1 : exists h, nth_error (c_hosts x_c) 1 = Some h /\ h_st h = x_so) by (eexists; split; reflexivity).
-  destruct H0 as (h0 & Hn0 & E0). destruct H1 as (h1 & Hn1 & E1).
-  split; [rewrite <- E0; apply (R_hosts _ _ _ x_R 0%nat h0 Hn0)|].
-  split; [rewrite <- E1; apply (R_hosts _ _ _ x_R 1%nat h1 Hn1)|].
+  assert (Hn0 : nth_error (c_hosts x_c) 0 = Some x_h0) by (vm_compute; reflexivity).
+  assert (Hn1 : nth_error (c_hosts x_c) 1 = Some x_h1) by (vm_compute; reflexivity).
+  split; [exact (proj1 (proj1 (R_hosts _ _ _ x_R 0%nat x_h0 Hn0)))|].
+  split; [exact (proj1 (proj1 (R_hosts _ _ _ x_R 1%nat x_h1 Hn1)))|].
   split; [vm_compute; reflexivity|]. split; [vm_compute; reflexivity|]. split.
   - intros s' e'. unfold mem.
     replace (look (h_mgr x_so) (e "/") (PStr (e "S2"))) with [(e "S2", e "c")] by (vm_compute; reflexivity).
@@ -113,6 +114,22 @@ Proof.
   - intro s'. unfold mem.
     replace (look (h_mgr x_si) (e "/") (PStr (e "S2"))) with (@nil (str * str)) by (vm_compute; reflexivity).
     reflexivity.
+Qed.
+
+(* the theorem applies: the four protocol steps, from this state *)
+Example x_callback_applies :
+  exists si1 so1 so2 si2,
+    api 0 (ps_emit 0 false (PStr (e "q")) (PInt 2) (e "/") (PStr (e "S2")) PNone (Some 7)) x_si =
+      (si1, [Published (m_emit 0 x_si (e "S2") (e "/") (PStr (e "q")) (PInt 2))]) /\
+    contained 1 (dispatch 1 (m_emit 0 x_si (e "S2") (e "/") (PStr (e "q")) (PInt 2))) x_so =
+      (so1, [Deliver 1 (e "c") (PktEvent (e "/") (PStr (e "q") :: pack (PInt 2)) (Some (lid x_so (e "S2"))))]) /\
+    h_ack 1 (e "c") (e "/") (lid x_so (e "S2")) [PInt 5] so1 = (so2, [Published (m_ret 0 x_si (e "S2") (e "/") [PInt 5])]) /\
+    contained 0 (dispatch 0 (m_ret 0 x_si (e "S2") (e "/") [PInt 5])) si1 = (si2, [Callback 0 7 [PInt 5]]).
+Proof.
+  destruct x_callback_premises as (H1 & H2 & H3 & H4 & H5 & H6).
+  destruct (callback_relay 0%nat 1%nat ltac:(discriminate) x_si x_so (e "S2") (e "c") (e "/") (PStr (e "q")) (PInt 2) 7 [PInt 5]
+              H1 H2 ltac:(discriminate) H3 H4 H5 H6) as (si1 & so1 & so2 & si2 & A & B & C & D & _).
+  exists si1, so1, so2, si2. auto.
 Qed.
 
 Example x_callback_run :
